@@ -38,6 +38,9 @@ ADVERSARIAL = [
     (7, [(2, 1), (3, 2), (4, 3), (5, 4), (6, 5), (7, 6)]),       # chain
     (6, [(1, 2), (1, 3), (1, 4), (2, 5), (3, 5), (4, 5), (5, 6)]),  # triple convergence
     (5, [(1, 3), (2, 3), (1, 4), (2, 4), (3, 5), (4, 5), (3, 4)]),
+    # two roots; the way over a simulated root (1-2-ROOT-6) is shorter than the real one (1-3-4-5-6)
+    (6, [(1, 2), (1, 3), (3, 4), (4, 5), (5, 6)]),
+    (7, [(1, 2), (1, 3), (3, 4), (4, 5), (5, 6), (7, 6)]),
 ]
 
 
